@@ -350,80 +350,4 @@ Proof.
     + (* plain *) unfold vstep. rewrite IH by reflexivity. unfold v_cl_ok; cbn [v_has v_cl]. tauto.
 Qed.
 
-(* the first block, from any state of the flags *)
-Definition ex (nm : bytes) (fs : list field) : bool := existsb (has_name nm) fs.
-
-Definition G (st : vst) (fs : list field) : Prop :=
-  forallb lowerf fs = true /\ pseudo_defined fs = true /\
-  (if v_r st then no_pseudo fs else pseudo_first fs) = true /\
-  no_connection_fields fs = true /\ te_ok fs = true /\
-  upto (v_m st) P_method fs = true /\ upto (v_s st) P_scheme fs = true /\
-  upto (v_p st) P_path fs = true /\ upto (v_a st) P_authority fs = true /\
-  (v_m st || ex P_method fs) = true /\ (v_s st || ex P_scheme fs) = true /\ (v_p st || ex P_path fs) = true /\
-  (if ex P_path fs then path_not_empty fs else negb (is_nil (v_path st))) = true /\
-  v_cl_ok st n = true /\ content_length_ok n fs = true.
-
-Definition accepted (st : vst) (fs : list field) : Prop :=
-  exists st1, vrun cfg st fs = inr st1 /\ v_valid st1 = true /\ v_cl_ok st1 n = true.
-
-Lemma upto_cons seen nm f t :
-  upto seen nm (f :: t) = if has_name nm f then negb seen && none nm t else upto seen nm t.
-Proof. unfold upto. rewrite none_cons, amo_cons. destruct seen, (has_name nm f); reflexivity. Qed.
-
-Lemma G_cons st k v t :
-  G st ((k, v) :: t) <->
-  lower_case k = true /\ forallb lowerf t = true /\
-  (if Http2Messages.is_pseudo (k, v) then name_in request_pseudo (k, v) else true) = true /\ pseudo_defined t = true /\
-  (if Http2Messages.is_pseudo (k, v) then (if v_r st then false else pseudo_first t) else no_pseudo t) = true /\
-  name_in connection_specific (k, v) = false /\ no_connection_fields t = true /\
-  (if has_name H_te (k, v) then bytes_eqb v V_trailers else true) = true /\ te_ok t = true /\
-  (if has_name P_method (k, v) then negb (v_m st) && none P_method t else upto (v_m st) P_method t) = true /\
-  (if has_name P_scheme (k, v) then negb (v_s st) && none P_scheme t else upto (v_s st) P_scheme t) = true /\
-  (if has_name P_path (k, v) then negb (v_p st) && none P_path t else upto (v_p st) P_path t) = true /\
-  (if has_name P_authority (k, v) then negb (v_a st) && none P_authority t else upto (v_a st) P_authority t) = true /\
-  (v_m st || (has_name P_method (k, v) || ex P_method t)) = true /\
-  (v_s st || (has_name P_scheme (k, v) || ex P_scheme t)) = true /\
-  (v_p st || (has_name P_path (k, v) || ex P_path t)) = true /\
-  (if has_name P_path (k, v) || ex P_path t
-   then (if has_name P_path (k, v) then negb (bytes_eqb v []) else true) && path_not_empty t
-   else negb (is_nil (v_path st))) = true /\
-  v_cl_ok st n = true /\
-  (if has_name H_content_length (k, v) then cl_field_ok v else true) = true /\ content_length_ok n t = true.
-Proof.
-  unfold G. rewrite !upto_cons.
-  unfold pseudo_defined, no_connection_fields, te_ok, content_length_ok, path_not_empty, ex, lowerf, no_pseudo, cl_field_ok.
-  cbn [forallb existsb pseudo_first fst snd].
-  destruct (Http2Messages.is_pseudo (k, v)), (v_r st); cbn [negb orb]; bsplit; tauto.
-Qed.
-
-Lemma accepted_cons st k v t :
-  accepted st ((k, v) :: t) <-> exists st1, vstep cfg st (classify k) v = inr st1 /\ accepted st1 t.
-Proof.
-  unfold accepted. cbn [vrun]. destruct (vstep cfg st (classify k) v) as [c|st1].
-  - split; [intros (? & ? & _); discriminate | intros (? & ? & _); discriminate].
-  - split; [intros H; exists st1; auto | intros (? & E & H); inversion E; subst; assumption].
-Qed.
-
-Lemma accepted_G : forall fs st, accepted st fs <-> G st fs.
-Proof.
-  induction fs as [|[k v] t IH]; intros st.
-  - unfold accepted, G, v_valid, ex. cbn [vrun forallb pseudo_defined existsb]. unfold upto, none, at_most_once, no_pseudo.
-    cbn. rewrite !orb_false_r. split.
-    + intros (st1 & E & V & C). inversion E; subst. bsplit. destruct (v_r st1); tauto.
-    + intros H. exists st. bsplit. destruct (v_r st); tauto.
-  - rewrite accepted_cons, G_cons. destruct (lower_case k) eqn:L.
-    2:{ rewrite upper_rejected by assumption. split; [intros (? & ? & _); discriminate | intros (? & _); discriminate]. }
-    destruct (view k v L) as [Vu Vp Vm Vpa Vs Va Vc Vt Vl]. rewrite Vp, Vm, Vpa, Vs, Va, Vc, Vt, Vl.
-    unfold name_in, request_pseudo. cbn [existsb]. rewrite Vm, Vpa, Vs, Va.
-    destruct (classify k) eqn:C; try congruence; cbn [cls_pseudo cls_eqb orb andb]; unfold vstep.
-    + (* :method *) admit.
-    + admit.
-    + admit.
-    + admit.
-    + admit.
-    + admit.
-    + admit.
-    + admit.
-    + admit.
-Abort.
 End Verdict.
